@@ -26,3 +26,6 @@ var rxSnapSeverity = map[string]rxSevSnap{
 	"Rhel":   {"lower", []string{"none", "low", "moderate", "important", "critical"}},
 	"OsvDb":  {"fold", []string{"unknown", "negligible", "low", "moderate", "medium", "high", "critical"}},
 }
+
+// (*ecs).LookupRepository of updater/osv: the names Gen/Feeds listed.
+var rxSnapOsvRepos = []string{"crates.io", "go", "npm", "nuget", "oss-fuzz", "packagist", "pypi", "rubygems", "maven"}
